@@ -30,7 +30,7 @@ LV = [0, 1, 2, 9]
 BOUNDS = {
     "quick": [
         dict(N=4, Levels=LV, MaxFiles=3, MaxTs=1, Parts=1, Fanout=True, TsOnly=False, cfg="MC_RestorePlan_quick_tx.cfg"),
-        dict(N=4, Levels=LV, MaxFiles=3, MaxTs=2, Parts=1, Fanout=True, TsOnly=True, cfg="MC_RestorePlan_quick_ts.cfg"),
+        dict(N=3, Levels=LV, MaxFiles=3, MaxTs=2, Parts=1, Fanout=True, TsOnly=True, cfg="MC_RestorePlan_quick_ts.cfg"),
     ],
     "thorough": [
         dict(N=5, Levels=LV, MaxFiles=4, MaxTs=1, Parts=2, Fanout=True, TsOnly=False, cfg="MC_RestorePlan_thorough_tx.cfg"),
@@ -200,8 +200,9 @@ def model_check(rep, wd, b, invariants, label):
     cfg = open(os.path.join(vlib.SPEC, b["cfg"])).read()
     cfg = re.sub(r"INVARIANTS .*", "INVARIANTS " + invariants, cfg)
 
-    for k in ("N", "MaxFiles", "MaxTs", "Parts", "Fanout", "TsOnly"):
-        want = "%s = %s" % (k, str(b[k]).upper() if isinstance(b[k], bool) else b[k])
+    for k in ("N", "Levels", "MaxFiles", "MaxTs", "Parts", "Fanout", "TsOnly"):
+        want = "%s = %s" % (k, str(b[k]).upper() if isinstance(b[k], bool) else
+                            "{%s}" % ", ".join(map(str, b[k])) if isinstance(b[k], list) else b[k])
         if not re.search(r"^\s*%s\s*$" % re.escape(want), cfg, re.M):
             raise vlib.MachineryError("%s does not declare %s (runner's table)" % (b["cfg"], want))
     nproc = min(b["Parts"], vlib.NCPU)
